@@ -138,6 +138,18 @@ def gen_history(seed, idx, method, info, tier, search=False):
             out.append(("call", op[1], str(rng.choice(kinds)), scheme[:X.shape[1]]))
         else:
             out.append(op)
+    if not slow and rng.random() < (1.0 if search else 0.5):
+        # buffer-reuse pattern: A, then nearly-the-same data B of the same shape, then A again, all as C-ordered arrays (which
+        # run_history hands over in ONE persistent buffer refilled in place)
+        jB = next((j for j in range(1, len(reqs)) if reqs[j]["data"].shape == A.shape and reqs[j]["params"] == params
+                   and not np.array_equal(reqs[j]["data"], A)), None)
+        if jB is None:
+            B = A.copy()
+            B[int(rng.integers(0, T)), int(rng.integers(0, n))] += 1.0
+            reqs.append({"data": B, "params": params})
+            jB = len(reqs) - 1
+        lab = scheme[:A.shape[1]]
+        out += [("call", 0, "arr_c", lab), ("call", jB, "arr_c", lab), ("call", 0, "arr_c", lab)]
     return {"idx": idx, "method": method, "info": info, "kind": kind, "T": T, "n": n, "reqs": reqs, "ops": out,
             "init": (int(rng.integers(0, 2 ** 31)), int(rng.integers(0, 2 ** 31)))}
 
@@ -224,6 +236,7 @@ def run_history(spec):
     np.random.seed(spec["init"][0])
     random.seed(spec["init"][1])
     ev = []
+    bufs = {}
     t0 = time.time()
     start = (digest_np(np_state()), digest_py(random.getstate()))
     for op in spec["ops"]:
@@ -232,6 +245,15 @@ def run_history(spec):
             if op[0] == "call":
                 req = spec["reqs"][op[1]]
                 obj, names = present(req["data"], op[2], op[3])
+                if op[2] == "arr_c":
+                    # one persistent buffer per shape, refilled IN PLACE for every call of that shape: object identity
+                    # must not stand in for data identity (a cache keyed by id() would serve stale lagged matrices)
+                    b = bufs.get(obj.shape)
+                    if b is None:
+                        b = bufs[obj.shape] = np.array(obj, dtype=float, copy=True)
+                    else:
+                        b[:] = obj
+                    obj = b
                 n0, p0 = np_state(), random.getstate()
                 with contextlib.redirect_stdout(io.StringIO()):
                     try:
